@@ -8,13 +8,14 @@
   The serializer half (end of this file): on containment forests the two-pass hierarchy builder
   nests under every node its complete subtree, whatever the order of the stored edges and of the
   visits (`serializer_builds_forest`, from the invariant `nest_spec` in Proofs/Nest.lean).
-  Both halves are composed in `roundtrip_forest`. PARTIAL: its premise that the preorder
-  enumeration of the forest has no repeated identifier is explicit, not derived; attributes across
-  the codec and the second-pass fixpoint are decided by the correspondence stream `cdx`.
+  Both halves are composed in `roundtrip_forest`, and its enumeration premise is discharged from
+  the forest hypotheses in `roundtrip_forest_closed` (Proofs/ForestNodup.lean). PARTIAL: attributes
+  across the codec and the second-pass fixpoint are decided by the correspondence stream `cdx`.
 -/
 import Protobom.Proofs.Cdx
 import Protobom.Proofs.Nest
 import Protobom.Proofs.NestRT
+import Protobom.Proofs.ForestNodup
 
 namespace Protobom.C02
 open Protobom Protobom.Cdx Gen
@@ -149,5 +150,31 @@ theorem roundtrip_forest (v : Nat) (d : Document) (md : Metadata) (nl : NodeList
         ∀ s t x, nl'.HasEdge s t x ↔ t = 5 ∧
           ((s = root ∧ x ∈ tops) ∨ ((∃ t' ∈ tops, s ∈ preT t') ∧ x ∈ childrenOf p1 s)) :=
   rtCDX_forest v d md nl root rootNode lcs p1 ht hmd hnl hroots hroot hrid hlc hp1 F hht hids
+
+/-- the enumeration premise of `roundtrip_forest` holds in every containment forest, so the round
+    trip theorem needs only the forest hypotheses -/
+theorem roundtrip_forest_closed (v : Nat) (d : Document) (md : Metadata) (nl : NodeList) (root : String) (rootNode : Node)
+    (lcs : List Lifecycle) (p1 : Pass1) (ht : String → Nat)
+    (hmd : d.metadata = some md) (hnl : d.nodeList = some nl) (hroots : nl.roots = [root])
+    (hroot : nl.getNodeByID root = some rootNode) (hrid : rootNode.id = root)
+    (hlc : serCDX.mapLifecycles md.docTypes = .ok lcs)
+    (hp1 : pass1 (fun id => (dictOf nl.nodes).any (·.1 = id)) nl.edges = .ok p1)
+    (F : Forest (childrenOf p1) ht (fun x => ((dictOf nl.nodes).lookup x).isSome = true) [root])
+    (hht : ∀ x, ht x < (dictOf nl.nodes).length + 2)
+    (hids : ∀ x, ((dictOf nl.nodes).lookup x).isSome = true → x ≠ "" ∧ isAutoRef x = false) :
+    ∃ (placed : List String) (d' : Document) (nl' : NodeList),
+      (∀ x, x ∈ placed ↔ (x = root ∨ ∃ p, p ≠ root ∧ ((dictOf nl.nodes).lookup p).isSome = true ∧ x ∈ childrenOf p1 p)) ∧
+      rtCDX v d = .ok d' ∧ d'.nodeList = some nl' ∧ nl'.roots = [root] ∧ nl'.ids.Nodup ∧
+      nl'.ids = root :: (((dictOf nl.nodes).filter (fun kv => decide (kv.1 ∉ placed))).map (·.1)).flatMap
+          (fun t => pre (childrenOf p1) (ht t + 1) t) ∧
+      ∀ s t x, nl'.HasEdge s t x ↔ t = 5 ∧
+        ((s = root ∧ x ∈ ((dictOf nl.nodes).filter (fun kv => decide (kv.1 ∉ placed))).map (·.1)) ∨
+         ((∃ t' ∈ ((dictOf nl.nodes).filter (fun kv => decide (kv.1 ∉ placed))).map (·.1),
+            s ∈ pre (childrenOf p1) (ht t' + 1) t') ∧ x ∈ childrenOf p1 s)) := by
+  obtain ⟨placed, hpl, h⟩ := rtCDX_forest v d md nl root rootNode lcs p1 ht hmd hnl hroots hroot hrid hlc hp1 F hht hids
+  have hnd := forest_preorder_nodup (childrenOf p1) ht root (dictOf nl.nodes) (dictOf_keys_nodup nl.nodes) F
+    ((dictOf nl.nodes).length + 2) hht placed hpl
+  obtain ⟨d', nl', h1, h2, h3, h4, h5⟩ := h hnd
+  exact ⟨placed, d', nl', hpl, h1, h2, h4, h3 ▸ hnd, h3, h5⟩
 
 end Protobom.C02
